@@ -192,6 +192,12 @@ where
                     Token::Tag(tag @ tag!(<base> | <basefont> | <bgsound> | <link> | <meta>)) => {
                         self.insert_and_pop_element_for(tag.clone());
 
+                        // The remaining steps belong to the "meta" start tag alone: a charset attribute on
+                        // a link, base, basefont or bgsound element is not an encoding declaration.
+                        if tag.name != local_name!("meta") {
+                            return ProcessResult::DoneAckSelfClosing;
+                        }
+
                         // Step 1. If the element has a charset attribute, and getting an encoding from its value
                         // results in an encoding, and the confidence is currently tentative, then change the encoding
                         // to the resulting encoding.
